@@ -148,19 +148,25 @@ def sched_all(s: int) -> bool:
     return fin(M, ok, s=s)
 
 
-def seekable(kind: int, bufsize: int) -> bool:
+def seekable(kind: int, bufsize: int, off: int) -> bool:
     """
-    pre: 0 <= kind < 4 and 1 <= bufsize <= 12
+    pre: 0 <= kind < 4 and 0 <= bufsize < 5 and 0 <= off <= 3
     post: _
     """
     # buffered seekable sources as the documented input contract requires
     try:
+        from vpkg import alpha as _alpha
+        kind = _alpha.pick(kind, [0, 1, 2, 3])
+        bufsize = _alpha.pick(bufsize, [1, 2, 3, 8, 64])
+        off = _alpha.pick(off, [0, 1, 2, 3])
         data = stream_bytes()
         want = baseline(data)
         with notrace():
             d = tempfile.mkdtemp(prefix="vpio")
             path = os.path.join(d, "s.jelly")
-            k, bs = int(kind), int(bufsize)
+            k, bs, of = int(kind), int(bufsize), int(off)
+            junk = b"\x7fJNK"[:of]     # a container preamble the caller has already consumed: the source is positioned at `off`
+            data0, data = data, junk + data
             try:
                 if k == 0:
                     inp = io.BytesIO(data)
@@ -174,6 +180,8 @@ def seekable(kind: int, bufsize: int) -> bool:
                 else:
                     open(path, "wb").write(data)
                     inp = io.BufferedReader(io.FileIO(path, "rb"), buffer_size=bs + 2)
+                if of:
+                    inp.seek(of) if k != 2 else inp.read(of)
                 got = parse_items(inp)
                 inp.close()
             finally:
@@ -185,7 +193,7 @@ def seekable(kind: int, bufsize: int) -> bool:
             ok = False
     except Exception:  # noqa: BLE001
         ok = False
-    return fin(M, ok, kind=kind, bufsize=bufsize)
+    return fin(M, ok, kind=kind, bufsize=bufsize, off=off)
 
 
 # ------------------------------------------------------------------------------------------
@@ -200,8 +208,16 @@ def cut(k: int) -> bool:
             data, bounds, per = make_stream(P["integ"], P["phys"], P["K"], P["fs"], P.get("lead_empty", False), P.get("mid_empty", False), P.get("long", False))
         full = [i for f in per for i in f]
         got = []
+        hung = False
         try:
-            inp = io.BytesIO(data[:k])
+            if P.get("source") == "drop":
+                # non-seekable source whose connection is reset after k bytes (an exception from read(), not EOF)
+                from vpkg.harness.flow import StallSource
+                inp = StallSource(data, k, P["len"] + 1)
+            elif P.get("source") == "chunked":
+                inp = ChunkedSource(data[:k], [1, 1, 1])   # non-seekable, first reads one byte each, then plain EOF at the cut
+            else:
+                inp = io.BytesIO(data[:k])
             if P["integ"] == "generic":
                 from pyjelly.integrations.generic.parse import parse_jelly_flat
                 for x in parse_jelly_flat(inp):
@@ -210,12 +226,14 @@ def cut(k: int) -> bool:
                 from pyjelly.integrations.rdflib.parse import parse_jelly_flat
                 for x in parse_jelly_flat(inp):
                     got.append(norm_item(pj.terms.item_from_rdflib(x)))
+        except Hang:
+            hung = True       # neither ended nor raised: keeps asking an exhausted source for bytes
         except Exception:  # noqa: BLE001
             pass
         with notrace():
             kk = int(k)
             due = [it for b, its in zip(bounds, per) if b <= kk for it in its]
-            ok = got == full[:len(got)] and len(got) >= len(due)
+            ok = got == full[:len(got)] and len(got) >= len(due) and not hung
         if P.get("twin"):
             ok = False
     except Exception:  # noqa: BLE001
